@@ -77,6 +77,9 @@ var errCompiled = map[string]bhserrors.BHSError{
 	"ErrAncestorNotFound":             bhserrors.ErrAncestorNotFound,
 	"ErrHeadersNotPartOfTheSameChain": bhserrors.ErrHeadersNotPartOfTheSameChain,
 	"ErrHeaderWithGivenHashes":        bhserrors.ErrHeaderWithGivenHashes,
+	"ErrInvalidHeight":                bhserrors.ErrInvalidHeight,
+	"ErrCommonAncestorEmptyList":      bhserrors.ErrCommonAncestorEmptyList,
+	"ErrTokenNotFound":                bhserrors.ErrTokenNotFound,
 	"ErrHeaderNotFound":               bhserrors.ErrHeaderNotFound,
 	"ErrHeadersForGivenRangeNotFound": bhserrors.ErrHeadersForGivenRangeNotFound,
 	"ErrURLBodyRequired":              bhserrors.ErrURLBodyRequired,
